@@ -107,6 +107,16 @@ def parse_base(cls):
     return [("lr", "Q", "lr")]
 
 
+def base_summary(cls):
+    """(source text of what __init__ binds to self.parameters, iteration source of zero_grad)"""
+    meths = {m.name: m for m in cls.body if isinstance(m, ast.FunctionDef)}
+    src = None
+    for st in meths["__init__"].body:
+        if isinstance(st, ast.Assign) and len(st.targets) == 1 and _is_self_attr(st.targets[0], "parameters"):
+            src = ast.unparse(st.value)
+    return src, ast.unparse(meths["zero_grad"].body[0].iter)
+
+
 class Parser:
     def __init__(self, cir):
         self.c = cir
@@ -354,6 +364,8 @@ def analyse(repo=None):
         raise Untranslatable(tree, "class Optimizer not found")
     base_h = parse_base(classes["Optimizer"])
     res = {}
+    global BASE_SUMMARY
+    BASE_SUMMARY = base_summary(classes["Optimizer"])
     for name in CLASSES:
         if name not in classes:
             raise Untranslatable(tree, "class %s not found" % name)
@@ -788,8 +800,14 @@ Variable O : arr_ops.
 """
 
 
+BASE_SUMMARY = ("parameters", "self.parameters")
+
+
 def render(irs):
     parts = [HEADER % SRC]
+    parts.append("(* Optimizer.__init__: `self.parameters = <this expression>`; step() and zero_grad() iterate `self.parameters` *)")
+    parts.append('Definition optimizer_parameters_source : string := "%s".' % BASE_SUMMARY[0])
+    parts.append('Definition optimizer_zero_grad_iterates : string := "%s".\n' % BASE_SUMMARY[1])
     for name in CLASSES:
         parts.append(Printer(irs[name]).emit())
         parts.append("")
